@@ -56,12 +56,11 @@ def split_global_time(
     """
     log = _log.bind(n_records=data.interaction_count)
     if isinstance(time, (str, int, float, dt.datetime)):
-        times = [_make_time(time)]
+        time = [time]
         rv = "single"
     else:
-        times = [_make_time(t) for t in time]
         rv = "sequence"
-        log = log.bind(n_splits=len(times))
+        log = log.bind(n_splits=len(time))
 
     iname = data.default_interaction_class()
     matrix = data.interactions().pandas(ids=True)
@@ -73,7 +72,9 @@ def split_global_time(
 
     if ts_col.dtype.kind in ("i", "u", "f"):
         log.debug("converting query timestamps")
-        times = [t.timestamp() for t in times]
+        times = [_unix_time(t) for t in time]
+    else:
+        times = [_make_time(t) for t in time]
 
     results = []
     for i, t in enumerate(times):
@@ -123,9 +124,17 @@ def split_temporal_fraction(data: Dataset, test_fraction: float) -> TTSplit:
     return split_global_time(data, point)
 
 
+def _unix_time(t: int | float | str | dt.datetime) -> int | float:
+    if isinstance(t, (int, float)):
+        return t
+    else:
+        return _make_time(t).timestamp()
+
+
 def _make_time(t: int | float | str | dt.datetime) -> dt.datetime:
     if isinstance(t, (int, float)):
-        return dt.datetime.fromtimestamp(t)
+        # UNIX seconds denote an instant; timestamp-typed columns hold naive UTC times
+        return dt.datetime.fromtimestamp(t, dt.timezone.utc).replace(tzinfo=None)
     elif isinstance(t, str):
         return dt.datetime.fromisoformat(t)
     else:
